@@ -258,6 +258,14 @@ let handle_file c =
            | [r] -> spec_ok c "C09.oldfwd" (String.concat " " r = spec_hash) ("current reader on 0.4.7 file: " ^ String.concat " " r)
            | _ -> ());
           let zt_old = zt in
+          (* the file of the frozen 0.4.7 writer is, byte for byte, the file of the writer model for the same
+             configuration and entries: the writer theorems (well-formed store with this content) then
+             apply to this very file, not only the per-file certificate (codec None: the other codecs of 0.4.7
+             frame or parametrise their output differently, e.g. snappy frames, zlib level header) *)
+          (match model with
+           | WFile (mf, _, _) when cfg.wc_codec = N0 ->
+             check_eq c "oldfile.is_model_file" (hex_of_bytes oldf) (hex_of_bytes mf)
+           | _ -> ());
           (match open_meta oldf with
            | Done m when m.m_codec = N0 ->
              check_eq c "oldfwd.model" spec_hash (model_scan (decompress_of zt_old) oldf m false)
